@@ -27,6 +27,10 @@ use shredh::{
 };
 
 fn main() {
+    shredh::run_main(real_main)
+}
+
+fn real_main() {
     if std::env::var("LOUD").is_err() {
         shredh::quiet_panics();
     }
